@@ -766,6 +766,9 @@ def run(chk: core.Check):
         "302 + Location, Connection: close) and recording the complete header set of every request; the standard client headers of a transport = what an "
         "empty case (a schema load) delivers on applications and clients that have seen nothing, measured per run; the oracle's own merge of case / call headers "
         "and cookies",
+        "form-body stage: recording WSGI / ASGI applications and the loopback server as observers of the raw body bytes and the Content-Type; "
+        "urllib.parse.parse_qsl (keep_blank_values, strict) as the standards-conforming form decoder of the oracle; the oracle's own reading of a case body "
+        "(object = its fields, list of objects / of (key, value) pairs = the fields in order, scalars up to str())",
         "requests/urllib3 (query-string encoding of dict/list params, cookie header, header transmission), http.server (loopback) and Hypothesis "
         "(map/filter composition) as exercised by the oracle stage: tested per run, not proved",
     ]
@@ -780,6 +783,9 @@ def run(chk: core.Check):
         "builds the texts from the two parts); werkzeug's test client, starlette's TestClient and requests deliver the path they are given (dot segments "
         "that urljoin leaves in the URL are removed by requests/urllib3: such observations are skipped and counted); path values in histories are free of "
         "'?', '#', '%'; server URL variables are not used",
+        "form bodies: requests 2.32 RequestEncodingMixin._encode_params + urllib.parse.urlencode(doseq) and werkzeug 3.1 EnvironBuilder / _urlencode "
+        "(safe = !$'()*,/:;?@) are modelled by hand for objects of scalars and lists of 2-tuples (a None value is dropped, str() of a tuple key is its repr for "
+        "plain ASCII strings); list / dict values inside a form object, floats and file uploads are outside the model (skipped and counted)",
         "exchange histories: cases without a body (GET); header names outside Host / Content-Type / Content-Length and without underscores; cookie names and values "
         "of letters, digits, '-', '.' (no quoting by http.cookiejar / werkzeug); every Set-Cookie has Path=/ and no Domain / Expires / Max-Age (the cookie "
         "jars of werkzeug.test.Client and requests.Session are modelled for that shape only: xe_std = requests.utils.default_headers(), one jar per "
@@ -799,7 +805,11 @@ def run(chk: core.Check):
         "2-7 exchanges on one application per transport (70% on one main transport): schema loads (from_url / from_wsgi / from_asgi) and case.call() of cases with "
         "0-2 headers (names differing by case, overriding Accept / User-Agent / the test-case id; 8% a Cookie header), 0-2 cookies, headers= / cookies= of the call, "
         "35% through one of two session objects of the user; every answer sets 0-2 cookies over 5 names shared with the cases, 10% redirects, 10% Connection: close; "
-        "non-trivial = an exchange after an answer that set a cookie on the same transport"
+        "non-trivial = an exchange after an answer that set a cookie on the same transport. form bodies: values = objects of 0-3 fields / arrays of 0-3 such objects "
+        "(for prepare_urlencoded also scalars, arrays holding scalars and already prepared pairs) over names and texts with space, '&', '=', '%', '+', quotes, "
+        "non-ASCII, empty, integers, None, booleans; operations whose urlencoded request body is an object / an array of objects (minItems 0 or 1) / an object without "
+        "required fields, optional fields, enum / free strings / integers, 70% with an example; cases of the fuzzing, examples and coverage phases sent through "
+        "requests, WSGI and ASGI; non-trivial = a non-empty array body"
     )
     chk.proofs(["Common", "C06"])
     rng = chk.rng
@@ -825,6 +835,7 @@ def run(chk: core.Check):
         chk.stages["oracle_coverage_phase"] = oracle_coverage_phase(chk, rng, 12 if quick else 120)
         corr_histories(chk, rng, rec, (120 if quick else 1500) * (4 if chk.broken else 1), [c["history"] for c in corpus if c.get("stage") == "history"])
         corr_exchanges(chk, rng, rec, (150 if quick else 2000) * (4 if chk.broken else 1), [c["exchanges"] for c in corpus if c.get("stage") == "exchanges"])
+        corr_form_bodies(chk, rng, rec, 150 * scale, 60 * scale, (5 if quick else 40) * (4 if chk.broken else 1), 6 if quick else 12)
         for f in chk.findings:
             chk.known(f, witness_fails(f["witness"], rec))
     finally:
@@ -2321,6 +2332,387 @@ def corr_exchanges(chk, rng, rec, n, corpus=()):
 # ----------------------------------------------------------------------------------------
 # listed findings: canonical witnesses replayed on the implementation
 # ----------------------------------------------------------------------------------------
+# ----------------------------------------------------------------------------------------
+# application/x-www-form-urlencoded bodies (Model section 15)
+# ----------------------------------------------------------------------------------------
+FORM_MT = "application/x-www-form-urlencoded"
+FORM_NAMES = ["tag", "url", "a b", "n", "k=", "é", "x&y", "id"]
+FORM_TEXTS = ["0", "1", "a b", "x&y=z", "%41+", "é ü", "", "http://127.0.0.1:8001", "!$'()*,/:;?@~", "a+b", "中\U0001f600", "=", "&", "tag", "it's", "q\\"]
+
+
+def c_fval(v) -> str:
+    if isinstance(v, dict):
+        return "(FDict " + clist([ctuple(cstr(k), c_pyv(x)) for k, x in v.items()], "(str * pyv)") + ")"
+    if isinstance(v, tuple) and len(v) == 2:
+        return f"(FTuple {c_fval(v[0])} {c_fval(v[1])})"
+    if isinstance(v, list):
+        return "(FList " + clist([c_fval(x) for x in v], "fval") + ")"
+    return f"(FLeaf {c_pyv(v)})"
+
+
+def p_fval(t):
+    """canonical JSON-able form of an fval printed by Coq"""
+    tag = t[0]
+    if tag == "FLeaf":
+        return ["leaf", canon(p_pyv(t[1]))]
+    if tag == "FDict":
+        return ["dict", [[pstr(k), canon(p_pyv(x))] for k, x in t[1]]]
+    if tag == "FTuple":
+        return ["tuple", p_fval(t[1]), p_fval(t[2])]
+    if tag == "FList":
+        return ["list", [p_fval(x) for x in t[1]]]
+    raise ValueError(t)
+
+
+def canon_fval(v):
+    if isinstance(v, dict):
+        return ["dict", [[k, canon(x)] for k, x in v.items()]]
+    if isinstance(v, tuple) and len(v) == 2:
+        return ["tuple", canon_fval(v[0]), canon_fval(v[1])]
+    if isinstance(v, list):
+        return ["list", [canon_fval(x) for x in v]]
+    return ["leaf", canon(v)]
+
+
+def fval_modelled(v) -> bool:
+    """scalars, objects of scalars, 2-tuples and lists of those (no floats, no containers inside objects)"""
+    if isinstance(v, dict):
+        return all(isinstance(k, str) and (x is None or isinstance(x, (bool, int, str))) for k, x in v.items())
+    if isinstance(v, tuple):
+        return len(v) == 2 and all(fval_modelled(x) for x in v)
+    if isinstance(v, list):
+        return all(fval_modelled(x) for x in v)
+    return v is None or isinstance(v, (bool, int, str))
+
+
+def p_fwire(t):
+    t = _sym(t)
+    if isinstance(t, str):
+        return {"WRaises": "raises", "WEncodeError": "encode-error", "WUnmodelled": "unmodelled"}[t]
+    return ["body", pstr(t[1])]
+
+
+def rand_form_leaf(rng, wide=False):
+    r = rng.random()
+    if r < 0.6:
+        return rng.choice(FORM_TEXTS) if rng.random() < 0.7 else rand_text(rng, 5)
+    if r < 0.85:
+        return rng.choice([0, 1, -7, 42, 10**12])
+    if wide:
+        return rng.choice([None, True, False])
+    return rng.choice(["x", 5])
+
+
+def rand_form_dict(rng, wide=False):
+    names = rng.sample(FORM_NAMES, rng.choice([0, 1, 1, 2, 2, 3]))
+    return {n: rand_form_leaf(rng, wide) for n in names}
+
+
+def rand_form_value(rng, wide=False):
+    """what a form body schema can describe (object / array of objects); wide: also what prepare_urlencoded may be handed
+    (scalars, arrays holding scalars or already prepared pairs)"""
+    r = rng.random()
+    if r < 0.35:
+        return rand_form_dict(rng, wide)
+    items = []
+    for _ in range(rng.choice([0, 1, 1, 2, 3])):
+        q = rng.random()
+        if not wide or q < 0.6:
+            items.append(rand_form_dict(rng, wide))
+        elif q < 0.8:
+            items.append(rand_form_leaf(rng, True))
+        else:
+            items.append((rng.choice(FORM_NAMES), rand_form_leaf(rng)))
+    if wide and r > 0.95:
+        return rand_form_leaf(rng, True)
+    return items
+
+
+class FormSink:
+    """A recording WSGI application, a recording ASGI application and the loopback server: each reports the Content-Type and
+    the raw bytes of the body it received."""
+
+    def __init__(self, rec):
+        self.rec = rec
+        self.seen = []
+
+        def wsgi_app(environ, start_response):
+            n = int(environ.get("CONTENT_LENGTH") or 0)
+            self.seen.append((environ.get("CONTENT_TYPE"), environ["wsgi.input"].read(n) if n else b""))
+            start_response("200 OK", [("Content-Type", "application/json")])
+            return [b"{}"]
+
+        async def asgi_app(scope, receive, send):
+            if scope["type"] == "lifespan":
+                while True:
+                    message = await receive()
+                    if message["type"] == "lifespan.startup":
+                        await send({"type": "lifespan.startup.complete"})
+                    elif message["type"] == "lifespan.shutdown":
+                        await send({"type": "lifespan.shutdown.complete"})
+                        return
+            body = b""
+            while True:
+                message = await receive()
+                body += message.get("body", b"")
+                if not message.get("more_body"):
+                    break
+            ct = dict(scope["headers"]).get(b"content-type")
+            self.seen.append((ct.decode("latin-1") if ct is not None else None, body))
+            await send({"type": "http.response.start", "status": 200, "headers": [(b"content-type", b"application/json")]})
+            await send({"type": "http.response.body", "body": b"{}"})
+
+        self.apps = {"requests": None, "wsgi": wsgi_app, "asgi": asgi_app}
+
+    def operation(self, transport, body_schema, example=None):
+        import schemathesis
+
+        media = {"schema": body_schema}
+        if example is not None:
+            media["example"] = example
+        raw = {
+            "openapi": "3.0.2",
+            "info": {"title": "t", "version": "1"},
+            "paths": {"/form": {"post": {"requestBody": {"required": True, "content": {FORM_MT: media}}, "responses": {"200": {"description": "ok"}}}}},
+        }
+        schema = schemathesis.openapi.from_dict(raw)
+        if self.apps[transport] is not None:
+            schema.app = self.apps[transport]
+        schema.configure(base_url=(self.rec.url if transport == "requests" else "http://localhost") + "/api")
+        return schema["/form"]["POST"]
+
+    def send(self, transport, case):
+        """-> ["body", content type, text of the bytes] | "raises:<type>" """
+        if transport == "requests":
+            self.rec.take()
+        del self.seen[:]
+        try:
+            case.call()
+        except UnicodeEncodeError:
+            return "encode-error"
+        except (AttributeError, TypeError, ValueError) as exc:
+            return "raises:" + type(exc).__name__
+        if transport == "requests":
+            got = self.rec.take()
+            assert len(got) == 1, len(got)
+            ct = [v for k, v in got[0]["headers"] if k.lower() == "content-type"]
+            return ["body", ct[0] if ct else None, got[0]["body"].decode("latin-1")]
+        assert len(self.seen) == 1, len(self.seen)
+        return ["body", self.seen[0][0], self.seen[0][1].decode("latin-1")]
+
+
+def form_expected_pairs(body):
+    """the (name, text) pairs a case body stands for (array bodies are kept on the case as a list of pairs); None = not a form
+    value of the fragment the property speaks about (negative / malformed payloads)"""
+
+    def leaf(x):
+        return isinstance(x, (str, int)) and not isinstance(x, bool)
+
+    if isinstance(body, dict):
+        if all(isinstance(k, str) and leaf(x) for k, x in body.items()):
+            return [(k, str(x)) for k, x in body.items()]
+        return None
+    if isinstance(body, list):
+        out = []
+        for item in body:
+            if isinstance(item, dict) and all(isinstance(k, str) and leaf(x) for k, x in item.items()):
+                out.extend((k, str(x)) for k, x in item.items())
+            elif isinstance(item, tuple) and len(item) == 2 and isinstance(item[0], str) and leaf(item[1]):
+                out.append((item[0], str(item[1])))
+            else:
+                return None
+        return out
+    return None
+
+
+def rand_form_schema(rng):
+    """(body schema, example or None, kind)"""
+
+    def prop():
+        r = rng.random()
+        if r < 0.55:
+            return {"type": "string", "enum": rng.sample(FORM_TEXTS, rng.choice([1, 2, 3]))}
+        if r < 0.7:
+            return {"type": "string", "maxLength": 4}
+        if r < 0.85:
+            return {"type": "integer", "enum": rng.sample([0, 1, -7, 42, 10**12], 2)}
+        return {"type": "integer", "minimum": -3, "maximum": 3}
+
+    def obj(allow_empty):
+        names = rng.sample(FORM_NAMES, rng.choice(([0] if allow_empty else []) + [1, 2, 2, 3]))
+        required = [n for n in names if rng.random() < 0.5]
+        return {"type": "object", "properties": {n: prop() for n in names}, "required": required, "additionalProperties": False}
+
+    def example_of(o):
+        out = {}
+        for n, p in o["properties"].items():
+            if n in o["required"] or rng.random() < 0.5:
+                out[n] = p["enum"][0] if "enum" in p else ("ab" if p["type"] == "string" else 2)
+        return out
+
+    kind = rng.choice(["object", "array", "array", "array", "empty-object", "empty-array"])
+    if kind == "object":
+        o = obj(False)
+        return o, (example_of(o) if rng.random() < 0.7 else None), kind
+    if kind == "empty-object":
+        o = obj(True)
+        o["required"] = []
+        return o, ({} if rng.random() < 0.7 else None), kind
+    o = obj(False)
+    sch = {"type": "array", "items": o, "minItems": 0 if kind == "empty-array" else 1, "maxItems": 3}
+    example = None
+    if rng.random() < 0.7:
+        example = [] if kind == "empty-array" and rng.random() < 0.5 else [example_of(o) for _ in range(rng.choice([1, 2]))]
+    return sch, example, kind
+
+
+def form_cases(op, rng, n_fuzz):
+    """cases of the fuzzing, examples and coverage phases as the library produces them: [(phase, case)]"""
+    from hypothesis import HealthCheck, Phase, given, seed, settings
+
+    from schemathesis.generation import GenerationConfig, GenerationMode
+    from schemathesis.generation.hypothesis.builder import HypothesisTestConfig, HypothesisTestMode, create_test
+
+    out = []
+
+    @seed(rng.randrange(2**32))
+    @given(case=op.as_strategy())
+    @settings(max_examples=n_fuzz, database=None, deadline=None, phases=[Phase.generate], suppress_health_check=list(HealthCheck))
+    def fuzz(case):
+        out.append(("fuzzing", case))
+
+    fuzz()
+
+    def body(case):
+        out.append((case.meta.phase.name.value if case.meta is not None else "examples", case))
+
+    test = create_test(
+        operation=op,
+        test_func=body,
+        config=HypothesisTestConfig(
+            generation=GenerationConfig(modes=[GenerationMode.POSITIVE]),
+            modes=[HypothesisTestMode.EXAMPLES, HypothesisTestMode.COVERAGE],
+            settings=settings(phases=[Phase.explicit], database=None, deadline=None, suppress_health_check=list(HealthCheck)),
+        ),
+    )
+    test()
+    return out
+
+
+def form_oracle_one(sink, transport, phase, case):
+    """-> (status, problem or None, region or None, observation)"""
+    from urllib.parse import parse_qsl
+
+    expected = form_expected_pairs(case.body)
+    if case.media_type != FORM_MT or expected is None:
+        return "skipped", None, None, None
+    body = copy.deepcopy(case.body)
+    got = sink.send(transport, case)
+    if isinstance(got, str):
+        if transport == "wsgi" and isinstance(body, list) and body:
+            return "sent", f"the {transport} transport cannot send the form body of the case ({got})", "wsgi_array_form", got
+        return "sent", f"the {transport} transport cannot send the form body of the case ({got})", None, got
+    _, ct, text = got
+    try:
+        raw = text.encode("latin-1").decode("utf-8")
+        decoded = parse_qsl(raw, keep_blank_values=True, strict_parsing=bool(raw))
+    except ValueError as exc:
+        return "sent", f"the form body received through the {transport} transport is not well-formed ({exc})", None, got
+    if decoded != expected:
+        return "sent", f"the form body received through the {transport} transport does not decode to the body of the case ({phase} phase)", None, got
+    if ct != case.media_type:
+        return "sent", f"Content-Type received through the {transport} transport is not the media type of the case", None, got
+    return "sent", None, None, got
+
+
+def corr_form_bodies(chk, rng, rec, n_prepare, n_wire, n_ops, n_fuzz):
+    from schemathesis.core.transport import prepare_urlencoded
+    from schemathesis.transport import SerializationContext
+    from schemathesis.transport.asgi import ASGI_TRANSPORT
+    from schemathesis.transport.requests import REQUESTS_TRANSPORT
+    from schemathesis.transport.wsgi import WSGI_TRANSPORT
+
+    stage = {"prepare_urlencoded": 0, "serializers": 0, "wire": 0, "wire_unmodelled": 0, "operations": 0, "cases_sent": 0, "cases_skipped": 0,
+             "by_phase": {}, "by_kind": {}, "array_cases": 0, "in_known_region": 0}
+    # 1. prepare_urlencoded and the three serializers vs the model
+    values = [[{"tag": "0"}], {"tag": "0"}, [], {}, [("tag", "0")], ["x", {"a": 1}], "text"] + [rand_form_value(rng, wide=True) for _ in range(n_prepare)]
+    values = [v for v in values if fval_modelled(v)]
+    exprs = [f"(prepare_urlencoded {c_fval(v)})" for v in values]
+    for v, t in zip(values, core.coq_eval(IMPORTS, exprs)):
+        impl = canon_fval(prepare_urlencoded(copy.deepcopy(v)))
+        mod = p_fval(t)
+        chk.seen(["prepare_urlencoded", canon_fval(v)], isinstance(v, list) and bool(v))
+        stage["prepare_urlencoded"] += 1
+        if impl != mod:
+            chk.disagree("core.transport.prepare_urlencoded vs Model_C06.prepare_urlencoded", canon_fval(v), impl, mod)
+    # the serializer of every transport hands the (once prepared) case body to the client library as it is
+    transports = {"requests": REQUESTS_TRANSPORT, "wsgi": WSGI_TRANSPORT, "asgi": ASGI_TRANSPORT}
+    sink = FormSink(rec)
+    ops = {t: sink.operation(t, {"type": "object"}) for t in transports}
+    prepared = [prepare_urlencoded(copy.deepcopy(v)) for v in values]
+    exprs = [f"(ser_as_is (prepare_urlencoded {c_fval(v)}))" for v in values]
+    for v, b, t in zip(values, prepared, core.coq_eval(IMPORTS, exprs)):
+        mod = p_fval(t)
+        for name, tr in transports.items():
+            case = ops[name].Case(body=copy.deepcopy(b), media_type=FORM_MT)
+            out = tr._get_serializer(FORM_MT)(SerializationContext(case=case), copy.deepcopy(b))
+            stage["serializers"] += 1
+            impl = canon_fval(out.get("data")) if set(out) == {"data"} else ["extra-keys", sorted(out)]
+            if impl != mod:
+                chk.disagree(f"urlencoded_serializer of the {name} transport vs Model_C06.ser_as_is (data= is the case body as it is)", canon_fval(v), impl, mod)
+    # 2. the wire: hand-made form values, prepared once, through the three transports vs form_path ser_as_is
+    wire_values = [[{"tag": "0"}], {"tag": "0"}, [], {}, [{"a b": "x&y=z", "n": 5}, {}, {"a b": "é"}], {"a": "!$'()*,/:;?@~"}, {"a": None, "b": True}]
+    wire_values += [rand_form_value(rng, wide=rng.random() < 0.3) for _ in range(n_wire)]
+    wire_values = [v for v in wire_values if fval_modelled(v) and isinstance(v, (dict, list))]
+    jobs = [(v, name) for v in wire_values for name in transports]
+    exprs = [f"(form_path ser_as_is {H_TRANSPORTS[name]} {c_fval(v)})" for v, name in jobs]
+    for (v, name), t in zip(jobs, core.coq_eval(IMPORTS, exprs)):
+        mod = p_fwire(t)
+        if mod == "unmodelled":
+            stage["wire_unmodelled"] += 1
+            continue
+        case = ops[name].Case(body=prepare_urlencoded(copy.deepcopy(v)), media_type=FORM_MT)
+        got = sink.send(name, case)
+        impl = ("raises" if got.startswith("raises:") else got) if isinstance(got, str) else ["body", got[2]]
+        stage["wire"] += 1
+        chk.seen(["form_wire", name, canon_fval(v)], isinstance(v, list) and bool(v))
+        if impl != mod:
+            chk.disagree(f"form body on the wire ({name} transport) vs Model_C06.form_path ser_as_is", {"transport": name, "value": canon_fval(v)}, impl, mod)
+    # 3. oracle: operations with form bodies, cases of the fuzzing / examples / coverage phases, three transports
+    failures = 0
+    for _ in range(n_ops):
+        body_schema, example, kind = rand_form_schema(rng)
+        stage["operations"] += 1
+        stage["by_kind"][kind] = stage["by_kind"].get(kind, 0) + 1
+        for name in transports:
+            op = sink.operation(name, copy.deepcopy(body_schema), copy.deepcopy(example))
+            try:
+                cases = form_cases(op, rng, n_fuzz)
+            except Exception as exc:  # an operation the library cannot generate for is not an input of this stage
+                chk.count(f"form_oracle:generation-error:{type(exc).__name__}")
+                continue
+            for phase, case in cases:
+                body = copy.deepcopy(case.body)
+                status, problem, region, got = form_oracle_one(sink, name, phase, case)
+                if status == "skipped":
+                    stage["cases_skipped"] += 1
+                    continue
+                stage["cases_sent"] += 1
+                stage["by_phase"][phase] = stage["by_phase"].get(phase, 0) + 1
+                stage["array_cases"] += isinstance(body, list) and bool(body)
+                inp = {"transport": name, "phase": phase, "body_schema": body_schema, "example": example, "case_body": canon_fval(body)}
+                chk.seen(["form_oracle", name, phase, canon_fval(body)], isinstance(body, list) and bool(body))
+                if problem is not None:
+                    if region is not None:
+                        stage["in_known_region"] += 1
+                    else:
+                        failures += 1
+                    if region is not None or failures <= 25:
+                        chk.fail(problem, inp, {"expected_pairs": form_expected_pairs(body), "received": got}, region=region)
+    stage["failures_outside_regions"] = failures
+    chk.stages["correspondence_and_oracle_form_bodies"] = stage
+
+
 def witness_fails(w, rec=None) -> bool:
     own = rec is None
     rec = rec or Recorder()
@@ -2347,6 +2739,14 @@ def witness_fails(w, rec=None) -> bool:
             with ExchangeWorld(rec) as world:
                 real = run_exchanges_real(hist, world)
             return any(region == w["region"] for _, region, _, _ in exchange_oracle(hist, real, baseline))
+        if kind == "form_body":
+            sink = FormSink(rec)
+            op = sink.operation(w["transport"], w["body_schema"])
+            from schemathesis.core.transport import prepare_urlencoded
+
+            case = op.Case(body=prepare_urlencoded(copy.deepcopy(w["value"])), media_type=FORM_MT)
+            _, problem, region, _ = form_oracle_one(sink, w["transport"], "explicit", case)
+            return problem is not None and region == w["region"]
         if kind == "label_falsy":
             from schemathesis.specs.openapi.serialization import label_primitive
 
